@@ -10,7 +10,45 @@ def sh(cmd, cwd=None, timeout=3600):
                        env=dict(os.environ, CARGO_NET_OFFLINE="true"))
     return p.returncode, p.stdout
 
+def recheck(sid):
+    """re-run the check of the seed's own property (and the others that caught it) with the patch applied"""
+    out = "/verif/seeded/%s" % sid
+    rec = json.load(open(os.path.join(out, "meta.json")))
+    checks = [rec["property"]] + [c for c in rec.get("caught_by", []) if c != rec["property"]]
+    rc, o = sh("git -C /repo status --porcelain")
+    assert o.strip() == "", "repo not clean: " + o
+    rc, o = sh("git -C /repo apply %s" % os.path.join(out, "patch.diff"))
+    assert rc == 0, o
+    results = {}
+    try:
+        for c in checks:
+            t = time.time()
+            rc, o = sh("./check %s --tier quick" % c, cwd="/verif", timeout=5400)
+            lines = [l for l in o.split("\n") if l.startswith("VIOLATION") or l.startswith("OK ") or l.startswith("KNOWN-FINDING")]
+            results[c] = {"exit": rc, "lines": lines[:6], "wall_s": round(time.time() - t, 1)}
+            for l in lines:
+                if l.startswith("VIOLATION") and "replay=" in l:
+                    rp = l.split("replay=")[1].split()[0]
+                    if os.path.exists(rp):
+                        v = json.load(open(rp))
+                        results[c]["first_violation"] = {k: (str(v[k])[:400]) for k in v if k in ("what", "query", "broken_obligations", "case")}
+                    break
+    finally:
+        sh("git -C /repo checkout -- .")
+        sh("rm -f /verif/replays/*.json")
+    rec["checks"] = results
+    rec["caught_by"] = [c for c, r in results.items() if r["exit"] != 0]
+    rec["with_failing_input"] = [c for c, r in results.items()
+                                 if any(l.startswith("VIOLATION") and not l.rstrip().endswith("no-failing-input-found") for l in r["lines"])]
+    json.dump(rec, open(os.path.join(out, "meta.json"), "w"), indent=1)
+    print(sid, "caught_by", rec["caught_by"], "with_failing_input", rec["with_failing_input"])
+
+
 def main():
+    if sys.argv[1] == "--recheck":
+        for sid in sys.argv[2:]:
+            recheck(sid)
+        return
     sid, sdir = sys.argv[1], sys.argv[2]
     checks = sys.argv[3:]
     out = "/verif/seeded/%s" % sid
